@@ -166,3 +166,34 @@ contract(P + "lennard_jones_potential:LennardJonesPotential.__init__", ["C03", "
                   "fresh(self._six_power_potential) and fresh(self._twelve_power_potential)"],
          canary="self._characteristic_length == 1", native_search=False,
          note="the two inverse-power parts carry -k sigma^6 and +k sigma^12")
+
+
+# ---- the merged-image (Ewald) Coulomb potential: a triple lattice sum in C with erfc / exp / trigonometric recurrences -
+# BOUNDED native check (never counted as proved): the value equals an independent Ewald sum computed with a DIFFERENT
+# splitting parameter and larger cut-offs (convergence + alpha-independence) and is periodic, for integer and
+# non-integer box lengths
+EWGEN = ("def gen(rng):\n"
+         "    import jellyfysh.setting as setting\n"
+         "    from jellyfysh.setting import hypercubic_setting\n"
+         "    L = rng.choice([1.0, 1.5, 2.7, 3.7, 10.0, 0.8])\n"
+         "    if getattr(gen, 'L', None) != L:\n"
+         "        setting.reset()\n"
+         "        hypercubic_setting.HypercubicSetting(beta=1.0, dimension=3, system_length=L)\n"
+         "        setting.set_number_of_root_nodes(2); setting.set_number_of_nodes_per_root_node(1); setting.set_number_of_node_levels(1)\n"
+         "        from jellyfysh.potential.merged_image_coulomb_potential.merged_image_coulomb_potential import MergedImageCoulombPotential\n"
+         "        gen.pot = MergedImageCoulombPotential()\n"
+         "        gen.L = L\n"
+         "    s = [rng.uniform(-L / 2, L / 2) for _ in range(3)]\n"
+         "    if rng.random() < 0.2:\n"
+         "        s[rng.randrange(3)] = rng.choice([-0.4999, 0.4999]) * L\n"
+         "    v = [0.0, 0.0, 0.0]\n"
+         "    v[rng.randrange(3)] = rng.choice([1.0, 1.0, 0.5, 2.0])\n"
+         "    return {'self': gen.pot, 'velocity': v, 'separation': s, 'charge_one': rng.choice([1.0, -1.0, 0.41]), 'charge_two': rng.choice([1.0, -0.82, 2.0])}\n")
+contract(P + "merged_image_coulomb_potential.merged_image_coulomb_potential:MergedImageCoulombPotential.derivative", "C03",
+         model="R", tag="native", native_gen=EWGEN,
+         params={"velocity": "list[float]", "separation": "list[float]", "charge_one": "float", "charge_two": "float"},
+         requires=["separation[0] * separation[0] + separation[1] * separation[1] + separation[2] * separation[2] > 1e-4"],
+         ensures=["native: ewald_ok(self, velocity, separation, charge_one, charge_two, result)"],
+         ghost={"bounded_only": True, "varargs": [("separation", "list[float]"), ("charge_one", "float"), ("charge_two", "float")]},
+         note="bounded stand-in for the Ewald clauses (convergence, alpha-independence, periodicity): six box lengths "
+              "incl. non-integer ones, three directions, speeds 0.5..2, several charge products")
